@@ -138,10 +138,7 @@ def tlc(module, cfg, wd, workers=None, extra=None, timeout=3600, heap="8g", dequ
     """Run TLC in wd (a scratch copy of the spec dir). Returns dict with
     ok, states, distinct, generated, violated (list of invariant/property names), out."""
     meta = os.path.join(wd, "meta-%s-%d" % (os.path.basename(cfg), int(time.time() * 1000) % 100000))
-    # TLC unpacks the standard / community modules into java.io.tmpdir on every start: keep that inside the scratch directory
-    jtmp = meta + "-tmp"
-    os.makedirs(jtmp, exist_ok=True)
-    java = ["java", "-XX:+UseParallelGC", "-Xmx" + heap, "-Xss512m", "-Djava.io.tmpdir=" + jtmp]
+    java = ["java", "-XX:+UseParallelGC", "-Xmx" + heap, "-Xss512m"]
     if workers == 1:
         java += ["-XX:ParallelGCThreads=2", "-XX:CICompilerCount=2", "-XX:+UseNUMA"]
     if deque:
@@ -158,7 +155,6 @@ def tlc(module, cfg, wd, workers=None, extra=None, timeout=3600, heap="8g", dequ
         raise Fatal("TLC timeout on %s/%s" % (module, cfg))
     out = p.stdout
     shutil.rmtree(meta, ignore_errors=True)
-    shutil.rmtree(jtmp, ignore_errors=True)
     res = dict(rc=p.returncode, out=out, wall=time.time() - t0, violated=[], generated=0, distinct=0, depth=0)
     m = re.findall(r"(\d+) states generated, (\d+) distinct states found", out)
     if m:
